@@ -36,6 +36,8 @@ fn logical(bytes: &[u8], pws: &[Option<Vec<u8>>]) -> Result<(Vec<EObs>, Vec<(Vec
 struct WRun {
     first_err: Option<String>,
     bytes: Option<Vec<u8>>,
+    /// the sink after a SECOND finish() that reported success although the first one had failed
+    retried_bytes: Option<Vec<u8>>,
     ops: usize,
     kinds: Vec<u8>,
 }
@@ -62,7 +64,7 @@ fn run_writer(s: &WScenario, fail_at: usize, mode: (bool, u8), record: bool) -> 
         match catch(|| ZipWriter::new_append(sink)).map_err(|p| format!("PANIC in new_append under an injected fault at I/O call {fail_at}: {p}"))? {
             Ok(w) => w,
             Err(e) => {
-                return Ok(WRun { first_err: Some(format!("new_append: {e}")), bytes: None, ops: st.count(), kinds: st.kinds.lock().unwrap().clone() });
+                return Ok(WRun { first_err: Some(format!("new_append: {e}")), bytes: None, retried_bytes: None, ops: st.count(), kinds: st.kinds.lock().unwrap().clone() });
             }
         }
     } else {
@@ -107,6 +109,7 @@ fn run_writer(s: &WScenario, fail_at: usize, mode: (bool, u8), record: bool) -> 
         }
     }
     let mut out = None;
+    let mut retried: Option<Vec<u8>> = None;
     if s.by_drop {
         // completion by drop: errors are swallowed by design, so a fault here can only show up as
         // a different (or unreadable) archive; treat "drop after fault" as an error outcome
@@ -121,16 +124,22 @@ fn run_writer(s: &WScenario, fail_at: usize, mode: (bool, u8), record: bool) -> 
             Err(p) => return Err(format!("PANIC in finish() with a fault injected at I/O call {fail_at} (sticky={sticky}; earlier error: {first_err:?}): {p}")),
         }
         // a second finish and the drop must not panic either
+        let first_failed = out.is_none();
         match catch(|| {
-            let _ = w.finish();
+            let r = w.finish().ok().map(|sink| sink.inner.data);
             unsafe { std::mem::ManuallyDrop::drop(&mut w) }
+            r
         }) {
-            Ok(()) => {}
+            Ok(r) => {
+                if first_failed {
+                    retried = r;
+                }
+            }
             Err(p) => return Err(format!("PANIC in finish()/drop after a fault at I/O call {fail_at} (sticky={sticky}; earlier error: {first_err:?}): {p}")),
         }
     }
     let kinds = st.kinds.lock().unwrap().clone();
-    Ok(WRun { first_err, bytes: out, ops: st.count(), kinds })
+    Ok(WRun { first_err, bytes: out, retried_bytes: retried, ops: st.count(), kinds })
 }
 
 fn op_name(op: &Op) -> &'static str {
@@ -149,6 +158,7 @@ fn op_name(op: &Op) -> &'static str {
 const MODES: [(bool, u8); 5] = [(false, crate::sio::EK_OTHER), (true, crate::sio::EK_OTHER), (false, crate::sio::EK_EOF), (false, crate::sio::EK_INTR), (true, crate::sio::EK_EOF)];
 const MODES_ONESHOT: [(bool, u8); 3] = [(false, crate::sio::EK_OTHER), (false, crate::sio::EK_EOF), (false, crate::sio::EK_INTR)];
 static FAULT_RUNS: AtomicU64 = AtomicU64::new(0);
+static RETRIED_OK: AtomicU64 = AtomicU64::new(0);
 static BY_KIND: [AtomicU64; 4] = [AtomicU64::new(0), AtomicU64::new(0), AtomicU64::new(0), AtomicU64::new(0)];
 
 fn passwords_of(s: &WScenario) -> Vec<Option<Vec<u8>>> {
@@ -178,6 +188,45 @@ fn fault_indices(n: usize) -> Vec<usize> {
     v
 }
 
+/// An archive that a LATER finish() reported as finished although an earlier call had failed: which entries it
+/// holds is the caller's business (it saw the errors), but what it holds must be sound - the independent parser
+/// accepts it (every unencrypted entry decodes to its CRC and size) and every entry reads back through the
+/// crate, encrypted ones with one of the scenario's passwords.
+fn sound_after_retry(bytes: &[u8], pws: &[Option<Vec<u8>>]) -> Result<(), String> {
+    parse::parse(bytes, parse::Opts { lenient: true, allow_leading_gap: true, decode_limit: 1 << 24, allow_trailing: true })?;
+    let mut za = zip::ZipArchive::new(Cursor::new(bytes)).map_err(|e| format!("crate reader: {e}"))?;
+    let mut cands: Vec<Vec<u8>> = pws.iter().flatten().cloned().collect();
+    cands.sort();
+    cands.dedup();
+    for i in 0..za.len() {
+        let plain = match za.by_index(i) {
+            Ok(mut f) => {
+                let mut v = Vec::new();
+                std::io::Read::read_to_end(&mut f, &mut v).map_err(|e| format!("entry {i} ({:?}) does not read back: {e}", f.name()))?;
+                true
+            }
+            Err(_) => false,
+        };
+        if plain {
+            continue;
+        }
+        let mut ok = false;
+        for pw in &cands {
+            if let Ok(Ok(mut f)) = za.by_index_decrypt(i, pw) {
+                let mut v = Vec::new();
+                if std::io::Read::read_to_end(&mut f, &mut v).is_ok() {
+                    ok = true;
+                    break;
+                }
+            }
+        }
+        if !ok {
+            return Err(format!("entry {i} cannot be read back, neither without a password nor with any password the scenario used"));
+        }
+    }
+    Ok(())
+}
+
 fn sweep_writer(s: &WScenario, info: &mut Info) -> Result<(), String> {
     let r0 = run_writer(s, usize::MAX, (false, 0), true)?;
     if let Some(e) = &r0.first_err {
@@ -186,6 +235,7 @@ fn sweep_writer(s: &WScenario, info: &mut Info) -> Result<(), String> {
     let pws = passwords_of(s);
     let l0 = if s.by_drop { None } else { Some(logical(r0.bytes.as_ref().ok_or("harness: no bytes")?, &pws).map_err(|e| format!("harness: fault-free archive unreadable: {e}"))?) };
     info.nontrivial = r0.ops > 0;
+    let mut known: Option<String> = None;
     info.label_if(fault_indices(r0.ops).len() < r0.ops, "long run: sampled fault positions");
     for k in fault_indices(r0.ops) {
         for mode in MODES {
@@ -193,6 +243,20 @@ fn sweep_writer(s: &WScenario, info: &mut Info) -> Result<(), String> {
             FAULT_RUNS.fetch_add(1, Ordering::Relaxed);
             BY_KIND[r0.kinds[k] as usize].fetch_add(1, Ordering::Relaxed);
             let r = run_writer(s, k, mode, false)?;
+            if let Some(b) = &r.retried_bytes {
+                RETRIED_OK.fetch_add(1, Ordering::Relaxed);
+                if let Err(e) = sound_after_retry(b, &pws) {
+                    let m = format!("fault at I/O call {k} ({}; sticky={sticky}): finish() failed, a second finish() reported success, but the archive it finished is not sound: {e}", kind_name(r0.kinds[k]));
+                    if r0.kinds[k] == K_SEEK {
+                        // listed open finding (exact signature: the failed call is a SEEK): after a failed seek
+                        // while an entry's header is back-patched, the retried close recomputes the entry's
+                        // sizes from wherever the stream was left
+                        known.get_or_insert(m);
+                        continue;
+                    }
+                    return Err(m);
+                }
+            }
             if r.first_err.is_none() {
                 // no call reported the failure: the outcome must be the failure-free result
                 if let (Some(l0), Some(b)) = (&l0, &r.bytes) {
@@ -203,6 +267,9 @@ fn sweep_writer(s: &WScenario, info: &mut Info) -> Result<(), String> {
                 }
             }
         }
+    }
+    if let Some(m) = known {
+        return Err(format!("KNOWN:seek-fault-while-closing-then-finish-again: {m}"));
     }
     Ok(())
 }
@@ -290,6 +357,14 @@ fn sweep_writer_far(start: u64, info: &mut Info) -> Result<(), String> {
         }
     }
     Ok(())
+}
+
+fn wverdict(r: Result<(), String>) -> Verdict {
+    match r {
+        Ok(()) => Verdict::Pass,
+        Err(m) if m.starts_with("KNOWN:seek-fault-while-closing-then-finish-again") => Verdict::Known("seek-fault-while-closing-then-finish-again", m),
+        Err(m) => Verdict::Fail(m),
+    }
 }
 
 fn kind_name(k: u8) -> &'static str {
@@ -469,7 +544,7 @@ fn sweep_big_open(n_entries: u32, kmax: usize, append: bool) -> Result<(), Strin
 }
 
 pub fn run(ctx: &mut Ctx) {
-    ctx.rule("each scenario is first run failure-free under a counting stream (n I/O calls), then re-run with a hard error injected at EVERY call index k<n (runs longer than 3000 I/O calls: the first and last 1200 indices and 600 evenly spaced ones), as a one-shot and as a sticky failure of kind Other, and with the kinds UnexpectedEof (one-shot, sticky) and Interrupted (one-shot: std's own retry loops swallow it, then the result must be the failure-free one); after the first error the scenario keeps issuing its remaining calls, then finish(), a second finish() and drop. readers: open + read every entry (seekable; streaming fully consumed, and once more with a consumer that skips every entry - there a panic of the drop-time drain is accepted, a clean end with a different entry list is not; archives with encrypted entries a second time with a caller that reads 5 bytes at a time and calls read() again after an error) of the seed archives (plain, ZIP64, ZipCrypto, AES) and generated archives. writers: generated programs over all entry kinds, methods, extra data, aligned, ZipCrypto, optional append base and raw copies, completed by finish or drop; half of them with a caller that issues EVERY call of an operation whatever the earlier ones returned (write after a refused start_file, end_extra_data after a failed write) and calls flush() after each operation. writers_methods: every method x every kind of following operation, the same two callers. writers_far: two entries + comment written to a sparse sink that starts beyond 4 GiB, so the ZIP64 end record and locator are written and EVERY I/O call of the run (each field of those records) is failed in turn. big_open: archives with > 65535 entries, a fault at every one of the first K I/O calls (quick 48, thorough 200) of ZipArchive::new and of new_append (+1 entry, finish). Oracle: no panic/abort anywhere; if no call returned an error the logical result (entries, content, comment as seen by the crate reader and the independent parser) equals the failure-free result. Non-trivial = the failure-free run performs >=1 I/O call. evaluations counts scenarios; coverage.fault_runs counts injected-fault executions.");
+    ctx.rule("each scenario is first run failure-free under a counting stream (n I/O calls), then re-run with a hard error injected at EVERY call index k<n (runs longer than 3000 I/O calls: the first and last 1200 indices and 600 evenly spaced ones), as a one-shot and as a sticky failure of kind Other, and with the kinds UnexpectedEof (one-shot, sticky) and Interrupted (one-shot: std's own retry loops swallow it, then the result must be the failure-free one); after the first error the scenario keeps issuing its remaining calls, then finish(), a second finish() and drop. readers: open + read every entry (seekable; streaming fully consumed, and once more with a consumer that skips every entry - there a panic of the drop-time drain is accepted, a clean end with a different entry list is not; archives with encrypted entries a second time with a caller that reads 5 bytes at a time and calls read() again after an error) of the seed archives (plain, ZIP64, ZipCrypto, AES) and generated archives. writers: generated programs over all entry kinds, methods, extra data, aligned, ZipCrypto, optional append base and raw copies, completed by finish or drop; half of them with a caller that issues EVERY call of an operation whatever the earlier ones returned (write after a refused start_file, end_extra_data after a failed write) and calls flush() after each operation. writers_methods: every method x every kind of following operation, the same two callers. writers_far: two entries + comment written to a sparse sink that starts beyond 4 GiB, so the ZIP64 end record and locator are written and EVERY I/O call of the run (each field of those records) is failed in turn. big_open: archives with > 65535 entries, a fault at every one of the first K I/O calls (quick 48, thorough 200) of ZipArchive::new and of new_append (+1 entry, finish). Oracle: no panic/abort anywhere; when a second finish() reports success after the first one failed, the archive it finished must be sound (independent parser accepts it, every entry reads back - encrypted ones with a password the scenario used); if no call returned an error the logical result (entries, content, comment as seen by the crate reader and the independent parser) equals the failure-free result. Non-trivial = the failure-free run performs >=1 I/O call. evaluations counts scenarios; coverage.fault_runs counts injected-fault executions.");
     ctx.assume("streaming entries are read to the end, so the failure lands in a Result-returning call (the documented panic in the streaming ZipFile's drop-time drain is outside the property's wording)");
     ctx.assume("completion by drop swallows errors by design; for drop scenarios only the no-panic clause is checked");
     let seeds = seeds::small_seeds();
@@ -559,7 +634,7 @@ pub fn run(ctx: &mut Ctx) {
                     info.label(["first entry Stored", "first entry Deflated", "first entry Bzip2", "first entry Zstd"][match opts.method { gen::Method::Stored => 0, gen::Method::Deflated => 1, gen::Method::Bzip2 => 2, gen::Method::Zstd => 3 }]);
                 }
                 info.label_if(s.persistent, "caller carries on inside an operation + flush()");
-                Verdict::from_result(sweep_writer(s, info))
+                wverdict(sweep_writer(s, info))
             },
         );
     }
@@ -590,11 +665,12 @@ pub fn run(ctx: &mut Ctx) {
             info.label_if(s.persistent, "caller carries on inside an operation + flush()");
             info.label_if(s.program.ops.iter().any(|o| matches!(o, Op::ExtraFile { .. } | Op::Aligned { .. })), "extra/aligned");
             info.label_if(gen::model(&s.program).0.iter().any(|m| m.password.is_some()), "zipcrypto");
-            Verdict::from_result(sweep_writer(s, info))
+            wverdict(sweep_writer(s, info))
         },
     );
     ctx.max_shrink_iters = 2048;
     ctx.extra.insert("fault_runs".into(), serde_json::json!(FAULT_RUNS.load(Ordering::Relaxed)));
+    ctx.add_class("writers: a second finish() succeeded after a failed one (archive checked for soundness)", RETRIED_OK.load(Ordering::Relaxed));
     ctx.add_class("fault-at:read", BY_KIND[0].load(Ordering::Relaxed));
     ctx.add_class("fault-at:write", BY_KIND[1].load(Ordering::Relaxed));
     ctx.add_class("fault-at:flush", BY_KIND[2].load(Ordering::Relaxed));
